@@ -58,6 +58,8 @@ macro_rules! ws_skip {
         }
     };
 }
+// tiny bound (one multi-byte whitespace char such as U+00A0, or two ASCII ones)
+ws_skip!(ws_skip_3, 3, 6);
 ws_skip!(ws_skip_4, 4, 7);
 ws_skip!(ws_skip_6, 6, 9);
 
